@@ -64,7 +64,8 @@ def write_replay(prop, v):
 
 def write_evidence(prop, tier, seed, res, wall, nviol):
     global EVIDENCE_DIR
-    if os.path.realpath(os.environ.get('VERIF_REPO', '/repo')) != '/repo':
+    if os.path.realpath(os.environ.get('VERIF_REPO', '/repo')) != '/repo' \
+            or os.environ.get('VERIF_ONLY_SPECS'):
         # a run against a scratch copy (mutant, seeded change) must not
         # replace the evidence of the runs against /repo
         EVIDENCE_DIR = os.path.join('/tmp', 'verif-evidence-scratch')
